@@ -252,7 +252,14 @@ func c13Vector(c *Ctx, raw stdjson.RawMessage) {
 	}
 	c.Nontrivial()
 	r := newRng(c.Seed, string(raw))
-	for _, salt := range []int{0, 1 + r.intn(5)} {
+	salts := []int{0, 1 + r.intn(tMaxTable-1)}
+	if len(v.Layout) == 1 && v.Layout[0].ID <= 2 { // single-field structs: every value of the tables
+		salts = salts[:0]
+		for i := 0; i < tMaxTable; i++ {
+			salts = append(salts, i)
+		}
+	}
+	for _, salt := range salts {
 		for _, pn := range protoNames {
 			c.Case()
 			c13Run(c, thriftCase{Layout: v.Layout, Vals: v.Vals, Salt: salt, Proto: pn}, v)
@@ -438,7 +445,7 @@ func c04Vector(c *Ctx, raw stdjson.RawMessage) {
 	}
 	c.Nontrivial()
 	r := newRng(c.Seed, string(raw))
-	for _, salt := range []int{0, 1 + r.intn(5)} {
+	for _, salt := range []int{0, 1 + r.intn(tMaxTable-1)} {
 		c.Case()
 		c04Run(c, thriftCase{Layout: v.Layout, Vals: v.Vals, Salt: salt, Hist: c04Histories[r.intn(len(c04Histories))]})
 	}
@@ -667,7 +674,7 @@ func c08Vector(c *Ctx, raw stdjson.RawMessage) {
 	}
 	c.Nontrivial()
 	r := newRng(c.Seed, string(raw))
-	salt := r.intn(5)
+	salt := r.intn(tMaxTable)
 	l := tlift{salt}
 	for _, pn := range []string{"binary", "compact"} {
 		for _, what := range []string{"unknown-fields", "prefixes", "missing-required", "type-mismatch"} {
